@@ -76,8 +76,8 @@ var table = []fcase{
 	{"errors.AssertionFailedf", false, "stack", "root/assert", []int{0, 1, 2, 3}},
 	{"errors.AssertionFailedWithDepthf", true, "stack", "root/assert", []int{0, 1, 2, 3}},
 	{"errors.NewAssertionErrorWithWrappedErrf", false, "stack", "root/assert", []int{0, 1, 2, 6}},
-	{"errors.HandleAsAssertionFailure", false, "stack", "root/assert", []int{0}},
-	{"errors.HandleAsAssertionFailureDepth", true, "stack", "root/assert", []int{0}},
+	{"errors.HandleAsAssertionFailure", false, "stack", "root/assert", []int{0, 7}},
+	{"errors.HandleAsAssertionFailureDepth", true, "stack", "root/assert", []int{0, 7}},
 	{"errors.Join", false, "stack", "root/join", []int{0, 4, 5}},
 	{"errors.JoinWithDepth", true, "stack", "root/join", []int{0, 4, 5}},
 	{"errors.PackageDomain", false, "domain", "root/domain", []int{0}},
@@ -95,8 +95,8 @@ var table = []fcase{
 	{"errutil.AssertionFailedWithDepthf", true, "stack", "errutil/assert", []int{0, 1, 2, 3}},
 	{"errutil.NewAssertionErrorWithWrappedErrf", false, "stack", "errutil/assert", []int{0, 1, 2, 6}},
 	{"errutil.NewAssertionErrorWithWrappedErrDepthf", true, "stack", "errutil/assert", []int{0, 1, 2, 6}},
-	{"errutil.HandleAsAssertionFailure", false, "stack", "errutil/assert", []int{0}},
-	{"errutil.HandleAsAssertionFailureDepth", true, "stack", "errutil/assert", []int{0}},
+	{"errutil.HandleAsAssertionFailure", false, "stack", "errutil/assert", []int{0, 7}},
+	{"errutil.HandleAsAssertionFailureDepth", true, "stack", "errutil/assert", []int{0, 7}},
 	{"errutil.JoinWithDepth", true, "stack", "errutil/join", []int{0, 4, 5}},
 
 	{"withstack.WithStack", false, "stack", "withstack", []int{0}},
